@@ -66,15 +66,18 @@ theorem inherit_skips_blockification_absolute :
     isOk (styleAt (1 / 2) (1 / 2) [plain, parent, root] "display") (.strs ["block", "flow"]) = true := by
   decide +kernel
 
-/-- `image-orientation` is "Inherited: yes" (css-images-3 §5.2) but is not in `INHERITED`:
-`<div style="image-orientation: 90deg"><img …></div>` leaves the image unrotated (`from-image`),
-where the declaration on the `<img>` itself rotates it. -/
-theorem image_orientation_not_inherited :
+/-- Regression for the repaired finding `image-orientation-not-inherited` (commit 8f3706e):
+`image-orientation` is "Inherited: yes" (css-images-3) and was missing from `INHERITED`, so
+`<div style="image-orientation: 90deg"><img …></div>` left the image unrotated (`from-image`).
+The `<img>` now takes its parent's computed value `(90, False)`
+(`C06.inherited_is_css` is the full-strength theorem over every property). -/
+theorem image_orientation_inherited :
     let parent : Elem := ⟨[("image_orientation", .val (.tup [.num (pyPi / 2), .kw "False"]))], none, [], none⟩
     let child : Elem := ⟨[("width", .val (.kw "auto"))], none, [], none⟩
-    CssSpec.specInherits "image_orientation" = true ∧ isInherited "image_orientation" = false ∧
+    CssSpec.specInherits "image_orientation" = true ∧ isInherited "image_orientation" = true ∧
     isOk (styleAt (1 / 2) (1 / 2) [parent] "image_orientation") (.tup [.num 90, .kw "False"]) = true ∧
-    isOk (styleAt (1 / 2) (1 / 2) [child, parent] "image_orientation") (.kw "from-image") = true := by
+    isOk (styleAt (1 / 2) (1 / 2) [child, parent] "image_orientation") (.tup [.num 90, .kw "False"]) = true ∧
+    isOk (styleAt (1 / 2) (1 / 2) [⟨[], none, [], none⟩, parent] "image_orientation") (.tup [.num 90, .kw "False"]) = true := by
   decide +kernel
 
 /-- A style whose parent cannot deliver `page` and whose own `page` is a failed `var()`: the first
